@@ -1,8 +1,7 @@
 /-
 C17 — property theorems for the list / index logic of the chemistry reductions.
-NOT proved (OPEN_STATEMENTS in harness/c17.py; oracle-checked): the operator identities (chemist
-reordering, low-rank reconstruction, one-body-squared, active-space sector matrix elements, RDM
-contraction formulas on the N-particle sector).
+NOT proved (OPEN_STATEMENTS in harness/c17.py; oracle-checked): active-space sector matrix elements, the spin-orbital form of the
+chemist bridge, N-representability of inputs.
 -/
 import OFV.Model.C17
 import OFV.Spec.C17
@@ -12,6 +11,7 @@ import OFV.Proofs.C17Car
 import OFV.Proofs.C17Hole
 import OFV.Proofs.C17Sum
 import OFV.Proofs.C17Bridge
+import OFV.Proofs.C17LowRank
 import Mathlib.Data.Matrix.Mul
 import Mathlib.LinearAlgebra.Matrix.Notation
 
@@ -381,6 +381,49 @@ theorem model_chemist_entries_are_chemist_reordering {R : Type} [Ring R] [Algebr
           chemEntry h false P Q Rr S • (ad P * a Q * ad Rr * a S))
       + ∑ P ∈ range n, ∑ S ∈ range n, (-(∑ q ∈ range n, chemEntry h false P q q S)) • (ad P * a S) :=
   chemEntry_bridge hc h
+
+open OFV.Car Finset in
+/-- **low-rank reconstruction** (`low_rank_two_body_decomposition` without truncation), in any algebra with the CAR over any
+commutative ring of coefficients: the only property of `numpy.linalg.eigh` + reshape that is used enters as the hypothesis
+`h_{pqrs} = Σ_l λ_l g^l_{ps} g^l_{qr}` (eigendecomposition of the chemist-ordered `n² × n²` matrix, `g^l` the reshaped
+eigenvectors).  Then  `Σ h_{pqrs} a†_p a†_q a_r a_s = Σ_l λ_l (Σ_{ps} g^l_{ps} a†_p a_s)² − Σ_{pr} (Σ_q h_{pqrq}) a†_p a_r`:
+the squared one-body operators the function returns plus its one-body correction reproduce the two-body operator. -/
+theorem low_rank_reconstruct {K R : Type} [CommRing K] [Ring R] [Algebra K R] (n : Nat) (ad a : Nat → R)
+    (hc : CAR n ad a) (L : Nat) (lam : Nat → K) (g : Nat → Nat → Nat → K) (h : Nat → Nat → Nat → Nat → K)
+    (hV : ∀ p < n, ∀ q < n, ∀ r < n, ∀ s < n, h p q r s = ∑ l ∈ range L, lam l * (g l p s * g l q r)) :
+    ∑ p ∈ range n, ∑ q ∈ range n, ∑ r ∈ range n, ∑ s ∈ range n, h p q r s • (ad p * ad q * a r * a s) =
+      (∑ l ∈ range L, lam l •
+        ((∑ p ∈ range n, ∑ s ∈ range n, g l p s • (ad p * a s)) *
+         (∑ q ∈ range n, ∑ r ∈ range n, g l q r • (ad q * a r))))
+      - ∑ p ∈ range n, ∑ r ∈ range n, (∑ q ∈ range n, h p q r q) • (ad p * a r) :=
+  low_rank_reconstruct_sum hc L lam g h hV
+
+-- non-vacuity of the factorisation hypothesis: n = 1, one term, λ = 2, g = 3, h = 18
+example : ∀ p < 1, ∀ q < 1, ∀ r < 1, ∀ s < 1,
+    (fun _ _ _ _ => (18 : ℤ)) p q r s = ∑ l ∈ Finset.range 1, (fun _ => (2 : ℤ)) l * ((fun _ _ _ => (3 : ℤ)) l p s * (fun _ _ _ => (3 : ℤ)) l q r) := by
+  intro p _ q _ r _ s _; simp
+
+open OFV.Car Finset in
+/-- **sum of squares** for every family of operators (no CAR needed): a tensor that factorises as
+`V_{ps,qr} = Σ_l λ_l g^l_{ps} g^l_{qr}` gives `Σ V_{ps,qr} X_{ps} X_{qr} = Σ_l λ_l (Σ g^l_{ps} X_{ps})²` — the step used by
+`prepare_one_body_squared_evolution` / the low-rank Trotter step on the chemist-ordered operator. -/
+theorem one_body_squares_identity {K R : Type} [CommRing K] [Ring R] [Algebra K R] (n L : Nat) (lam : Nat → K)
+    (g : Nat → Nat → Nat → K) (V : Nat → Nat → Nat → Nat → K) (X : Nat → Nat → R)
+    (hV : ∀ p < n, ∀ q < n, ∀ r < n, ∀ s < n, V p q r s = ∑ l ∈ range L, lam l * (g l p s * g l q r)) :
+    ∑ p ∈ range n, ∑ q ∈ range n, ∑ r ∈ range n, ∑ s ∈ range n, V p q r s • (X p s * X q r) =
+      ∑ l ∈ range L, lam l •
+        ((∑ p ∈ range n, ∑ s ∈ range n, g l p s • X p s) * (∑ q ∈ range n, ∑ r ∈ range n, g l q r • X q r)) :=
+  sum_of_squares n L lam g V X hV
+
+open OFV.Car Finset in
+/-- **truncation**: keeping the first `L'` of `L' + d` squared one-body operators changes the operator by exactly the
+discarded squares `Σ_{k<d} λ_{L'+k} O_{L'+k}²` (the list arithmetic of `truncation_value` bounds their weights,
+`truncation_value_is_discarded_weight`) -/
+theorem low_rank_truncation_error_is_discarded_squares {K R : Type} [CommRing K] [Ring R] [Algebra K R] (L' d : Nat)
+    (lam : Nat → K) (O : Nat → R) :
+    (∑ l ∈ range (L' + d), lam l • (O l * O l)) - ∑ l ∈ range L', lam l • (O l * O l) =
+      ∑ k ∈ range d, lam (L' + k) • (O (L' + k) * O (L' + k)) :=
+  low_rank_truncation_error L' d lam O
 
 -- non-vacuity: one fermionic mode as 2 × 2 integer matrices satisfies the CAR for n = 1
 open OFV.Car Matrix in
